@@ -58,7 +58,7 @@ pub fn generate(scn: &dyn Scenario, rng: &mut Prng, tier: Tier) -> Spec {
     spec.generic = rng.chance(1, 4);
     if matches!(scn.id(), "C17" | "C14") {
         // ambient thread context of Debug formatting (see Spec.ctx)
-        spec.ctx = *rng.pick(&[0u8, 0, 0, 1, 2]);
+        spec.ctx = *rng.pick(&[0u8, 0, 0, 0, 0, 0, 1, 1, 2]);
     }
     spec
 }
